@@ -78,6 +78,8 @@ def h_flow(t, part):
         w.recv('e2', bfr[0])            # a bystander is in the middle of a binary event while the offender acts
         before = bystander_view(w, by)
         ncalls = len(calls)
+        own_before = {w.sid('e0', n) for n in ('/', '/a')} - {None}
+        pending_before = 'e0' in w.s._binary_packet      # an earlier header of the offender still waits for attachments
         kind = t.choice(3)
         undecodable = False
         if kind == 0:
@@ -102,14 +104,14 @@ def h_flow(t, part):
             hostile_undecodable += 1
             w.recv('e0', MALFORMED[t.choice(len(MALFORMED))])
         new_calls = calls[ncalls:]
-        own = {w.sid('e0', n) for n in ('/', '/a')} - {None}
-        bad = [c for c in new_calls if c[1] not in own and not (c[0] == 'disconnect' and c[1] == off_sid)]
+        own = ({w.sid('e0', n) for n in ('/', '/a')} - {None}) | own_before      # the offender's sessions before or after
+        bad = [c for c in new_calls if c[1] not in own]
         if bad:
             return Fail('hostile:handler-ran-for-%s' % ('bystander' if [c for c in bad if c[1] in (b1, b2)] else 'nobody'),
                         'the offender holds %r; handlers ran %r' % (sorted(own), bad))
-        if kind == 0 and data is BAD_INDEX and ptype in (5, 6) and new_calls:
+        if kind == 0 and data is BAD_INDEX and ptype in (5, 6) and new_calls and not pending_before:
             return Fail('hostile:undecodable-input-reached-handler:placeholder-index', repr(new_calls))
-        if kind == 1 and step == 0 and new_calls:
+        if kind == 1 and not pending_before and new_calls:
             return Fail('hostile:undecodable-input-reached-handler:stray-binary', 'frame %r ran %r' % (stray, new_calls))
         if undecodable and part.get('strict_undecodable'):
             pass
